@@ -97,7 +97,7 @@ def table(mod, clsname, kind):
 
 # ---- write-path traces ------------------------------------------------------------------------
 
-BIG = b'0:' + b'x' * 200000        # larger than any plausible piece size of a chunking write()
+BIG = b'0:' + b'x' * 4000000       # larger than any plausible piece size of a chunking write()
 
 SCENARIOS = [
     # name, ops.  start/step = one step of the writer's coroutine (recorded); the others are what
@@ -293,10 +293,33 @@ def stall_rows(repo, kind):
     return rows
 
 
+SENDER_KINDS = ('notification', 'request', 'response', 'batch', 'notification_batch', 'error_reply')
+
+
+def empty_batch(repo, kind):
+    """`async with session.send_batch(): pass` - does the public API admit an empty batch?
+    -> (outcome, anything handed to the asyncio transport)"""
+    loop, tr, session, finish = _world(repo, kind)
+    try:
+        async def main():
+            await asyncio.sleep(0)
+            n = len(tr.log)
+            try:
+                async with session.send_batch():
+                    pass
+                out = 'returned'
+            except BaseException as e:      # noqa
+                out = type(e).__name__
+            return out, any(r[1] == 'write' for r in tr.log[n:])
+        return list(loop.run_until_complete(main()))
+    finally:
+        finish()
+
+
 def sender_kinds(repo, kind):
     """the abort deadline applies to every kind of sender: {kind: aborted exactly at the delay}"""
     out = {}
-    for name in ('notification', 'request', 'response', 'batch'):
+    for name in SENDER_KINDS:
         loop, tr, session, finish = _world(repo, kind)
         try:
             if name == 'notification':
@@ -308,6 +331,18 @@ def sender_kinds(repo, kind):
                     async with session.send_batch() as b:
                         b.add_request('m', [1])
                         b.add_notification('n')
+            elif name == 'notification_batch':
+                async def mk():
+                    # no request in it: nothing to wait for after the send
+                    async with session.send_batch() as b:
+                        b.add_notification('n', [1])
+                        b.add_notification('n', [2])
+            elif name == 'error_reply':
+                async def mk():
+                    # the peer sends something that is not JSON; the error reply is sent by the
+                    # message-processing task of the session
+                    tr.feed(b'this is not json\n')
+                    await asyncio.sleep(STALL_DELAY * 3)
             else:
                 async def mk():
                     # the peer's request arrives; the response is sent by a task of the session
@@ -377,6 +412,7 @@ def extract(repo):
         'write_trace_us': write_traces(us, 'USTransport', kind),
         'stall_rs': stall_rows(repo, 'rs'), 'stall_us': stall_rows(repo, 'us'),
         'senders_rs': sender_kinds(repo, 'rs'), 'senders_us': sender_kinds(repo, 'us'),
+        'empty_batch': [empty_batch(repo, 'rs'), empty_batch(repo, 'us')],
         'abort_rs': abort_table(rs, 'RSTransport', kind),
         'abort_us': abort_table(us, 'USTransport', kind),
         'close_rs': close_table(rs, 'RSTransport', kind),
@@ -456,9 +492,12 @@ def render(f):
         'structure StallRow where\n  blocked : Bool\n  closingBefore : Bool\n  lostBefore : Bool\n  abortedOnce : Bool\n  atDeadline : Bool\n  taskTimeout : Bool\n  lostAfter : Bool\n  deriving DecidableEq, Repr\n'
         f'def stallRS : List StallRow := {_stall(f["stall_rs"])}\n'
         f'def stallUS : List StallRow := {_stall(f["stall_us"])}\n'
-        '/-- a blocked notification / request / response / batch each gets the connection aborted\n'
-        '    at exactly max_send_delay (both transports) -/\n'
-        f'def sendersBounded : List Bool := [{", ".join(b(f["senders_rs"][k] and f["senders_us"][k]) for k in ("notification", "request", "response", "batch"))}]\n'
+        '/-- every kind of sender of the public API, blocked on a full send buffer, gets the\n'
+        '    connection aborted at exactly max_send_delay (both transports).  Kinds, in order:\n'
+        '    ' + ', '.join(SENDER_KINDS) + ' -/\n'
+        f'def sendersBounded : List Bool := [{", ".join(b(f["senders_rs"][k] and f["senders_us"][k]) for k in SENDER_KINDS)}]\n'
+        '/-- an empty batch is refused by the public API (ProtocolError) and nothing is written -/\n'
+        f'def emptyBatchRefused : Bool := {b(f["empty_batch"] == [["ProtocolError", False]] * 2)}\n'
         '/-- `await transport.abort()` calls exactly `abort()` on the asyncio transport, whether\n'
         '    or not it is already closing (both transports) -/\n'
         f'def abortAborts : Bool := {b(f["abort_rs"] == [["abort"], ["abort"]] and f["abort_us"] == [["abort"], ["abort"]])}\n'
